@@ -25,6 +25,10 @@ PLAN = {
                 'C03_NoGhostsOfTheDeparted'],
         'quick': ['rooms_quick'],
         'thorough': ['rooms_quick', 'rooms'],
+        # (config, histories quick, histories thorough, max length)
+        'walks': [('rooms_big', 60, 1500, 60)],
+        'walk_inv': ['ConnAgree', 'C03_RoomsListing',
+                     'C03_NoGhostsOfTheDeparted'],
     },
     'C04': {
         'inv': ['ConnAgree', 'C04_ConnectOutcome', 'C04_DisconnectHandler',
@@ -44,12 +48,16 @@ PLAN = {
     'C06': {
         'inv': ['ConnAgree', 'C06_IssuedIdUnique', 'C06_AckOutcome',
                 'C06_IssuedMatchesCore', 'C06_CallOutcome'],
+        'walks': [('acks_big', 40, 1000, 60), ('calls_big', 20, 400, 40)],
+        'walk_inv': ['ConnAgree', 'C06_IssuedMatchesCore'],
         'quick': ['acks_quick', 'calls_quick', 'calls_inline'],
         'thorough': ['acks_quick', 'acks', 'acks_mp_quick', 'calls_quick',
                      'calls_inline', 'calls'],
     },
     'C11': {
         'inv': ['C11_NoResidue', 'C11_FreshWhenEmpty'],
+        'walks': [('residue_big', 40, 1000, 60)],
+        'walk_inv': ['C11_NoResidue', 'C11_FreshWhenEmpty'],
         'quick': ['residue_quick'],
         'thorough': ['residue_quick', 'residue'],
     },
@@ -60,6 +68,8 @@ PLAN = {
     },
     'C16': {
         'inv': ['ConnAgree', 'C16_SessionIsolation'],
+        'walks': [('sessions_big', 40, 1000, 60)],
+        'walk_inv': ['ConnAgree'],
         'quick': ['sessions_quick', 'sessions_quick_b'],
         'thorough': ['sessions_quick', 'sessions_quick_b', 'sessions'],
     },
@@ -140,6 +150,8 @@ PLAN.update({
     },
     'C07': {
         'fam': 'pubsub',
+        'walks': [('ps_walk_big', 40, 800, 80)],
+        'walk_inv': ['TypeOK', 'C07_Deliveries', 'C07_OwnerHoldsClient'],
         'inv': ['C07_Deliveries', 'C07_SingleServerEquivalence',
                 'C07_OwnerHoldsClient', 'C07_CallbackOnOrigin'],
         'quick': ['ps_imm_quick', 'ps_delay_quick', 'ps_delay_disc_quick',
@@ -338,13 +350,78 @@ def _tlc_g1(fam, wd, cfg, alphabet, invariants, workers, view=False,
                        workers=workers)
 
 
-def _tlc_g2(fam, wd, cfg, alphabet, gf, workers, tag, complete=True):
+def _tlc_g2(fam, wd, cfg, alphabet, gf, workers, tag, complete=True,
+            ghosts=False, invariants=()):
     mod, cfgc = mc_module(fam, tag, fam['graph'], cfg, alphabet)
     cfgt = 'INIT GInit\nNEXT GNext\n' + cfgc + 'INVARIANT AllEdgesOK\n' + \
-        ('INVARIANT AlphabetComplete\n' if complete else '')
+        ('INVARIANT AlphabetComplete\n' if complete else '') + \
+        ''.join('INVARIANT %s\n' % i for i in invariants)
     return tlc.run_tlc(os.path.join(wd, tag), tag, cfgt,
-                       env={'GRAPH_FILE': gf, 'WITH_GHOSTS': '0'},
+                       env={'GRAPH_FILE': gf,
+                            'WITH_GHOSTS': '1' if ghosts else '0'},
                        modules={tag: mod}, workers=workers, heap='8g')
+
+
+def check_walks(v, name, invariants, dev, n, length):
+    """Scope beyond the exhaustive bound: seeded random histories on a
+    larger configuration, recorded as a forest; TLC re-executes every step
+    with the specification (whole state, outputs) and evaluates the
+    property invariants, ghosts evolving along each history."""
+    planid = getattr(v, 'planid', v.pid)
+    fam = _fam(planid)
+    fam_name = PLAN[planid].get('fam', 'server')
+    cfg = _cfg_for(fam, name, dev)
+    wd = os.path.join(common.WORK, v.pid, 'walks_' + name)
+    os.makedirs(wd, exist_ok=True)
+    alphabet = getattr(fam['alpha'], cfg['alpha'])(cfg)
+    en = fam['alpha'].enabled(cfg)
+    ok = True
+    for var in fam.get('variants', ('threaded', 'asyncio')):
+        c2 = dict(cfg, asyncio=(var == 'asyncio'))
+        g = explore.random_walks(_Factory(fam_name, c2), alphabet, en, n,
+                                 length, common.seed())
+        gf = os.path.join(wd, 'walks_%s.json' % var)
+        with open(gf, 'w') as f:
+            json.dump({'nodes': g['nodes'], 'out': g['out'],
+                       'edges': g['edges']}, f)
+        r = _tlc_g2(fam, wd, cfg, alphabet, gf, 8, 'MCW_' + var,
+                    complete=False, ghosts=True, invariants=invariants)
+        v.log('  [%s/%s] %d random histories of length <= %d (%d steps, '
+              'alphabet %d): %s' % (name, var, n, length, len(g['edges']),
+                                    len(alphabet),
+                                    'ok' if r.ok else r.violation or
+                                    (r.error or '')[-300:]))
+        if r.error and 'Attempted to' not in r.error:
+            v.error('TLC failed on walks %s/%s: %s' % (name, var, r.error))
+            return False
+        if not r.ok:
+            ok = False
+            rej = _rejected_edge(r) or ('invariant %s' % r.violation) \
+                if not r.error else 'ill-shaped value: ' + r.error[-400:]
+            i = _edge_no(rej)
+            rep = {'config': name, 'impl': var, 'verdict': rej,
+                   'seed': common.seed()}
+            if i:
+                # the history up to the rejected step
+                e = g['edges'][i - 1]
+                path = []
+                cur = e['src']
+                by_dst = {x['dst']: x for x in g['edges']}
+                while cur != 1:
+                    x = by_dst[cur]
+                    path.append(x['a'])
+                    cur = x['src']
+                rep.update({'history': path[::-1], 'action': e['a'],
+                            'observed': e['out'],
+                            'observed_post_state': g['nodes'][e['dst'] - 1]})
+            v.violation('random history: ' + str(rej)[:1500], rep)
+        else:
+            v.cov['traces_validated_against_impl'] += len(g['edges'])
+            v.add_run(config='walks:' + name, impl=var, dev=sorted(dev),
+                      impl_states=len({explore.canon(x)
+                                       for x in g['nodes']}),
+                      impl_edges=len(g['edges']), walks=n, g2_ok=True)
+    return ok
 
 
 def _rejected_edge(r):
@@ -609,6 +686,8 @@ def run(pid, tier):
     _run_plan(v, pid, pid, tier)
     for extra in PLAN[pid].get('also', []):
         _run_plan(v, pid, extra, tier)
+    for pl in [pid] + PLAN[pid].get('also', []):
+        _run_walks(v, pid, pl, tier)
     if pid == 'C15':
         _redis_leg(v, tier)
     v.cov['rule'] = ('every action of the configuration alphabet (or every '
@@ -696,6 +775,22 @@ def _run_plan(v, pid, planid, tier):
                     else:
                         v.log('  (known finding %s is not exercised by '
                               'configuration %s)' % (d, name))
+
+
+def _run_walks(v, pid, planid, tier):
+    plan = PLAN[planid]
+    v.planid = planid
+    fam = _fam(planid)
+    known = common.known_findings()
+    for name, nq, nt, length in plan.get('walks', []):
+        devs = sorted({k['deviation'] for k in known
+                       if k['status'] == 'known' and k.get('deviation') in
+                       fam['configs'][name].get('dev', [])})
+        # state-shaped invariants only: the "for every enabled action"
+        # ones cost |alphabet| evaluations per step and are what the edge
+        # validation itself establishes for the step actually taken
+        check_walks(v, name, plan.get('walk_inv', []), devs,
+                    nq if tier == 'quick' else nt, length)
 
 
 def _devs_needed(pid):
